@@ -85,8 +85,9 @@ Qed.
 (* ------------------------------------------------------------------ the scan of the common prefix *)
 Definition close_stmt : fstmt := FWhile FSpanNonEmpty close_body.
 Definition back_stmt : fstmt := FWhile (FAnd FNameNotAtBegin FBeforeNameNotColon) FDecName.
+(* `if (c) { ...; break; } REST` and `if (c) { ...; break; } else { REST }` are one spelling for the translator (the second) *)
 Definition scan_body : fstmt :=
-  FSeq (FIf (FOr FNameAtEnd FPrevCharDiffers) (FSeq close_stmt (FSeq back_stmt FBreak)) FSkip) (FSeq FIncPrev FIncName).
+  FIf (FOr FNameAtEnd FPrevCharDiffers) (FSeq close_stmt (FSeq back_stmt FBreak)) (FSeq FIncPrev FIncName).
 
 Lemma mismatch_branch span nb na out : span <> [] ->
   fexec (FSeq close_stmt (FSeq back_stmt FBreak)) (mk_fst (Some span) false nb na None out)
